@@ -33,7 +33,9 @@ def main():
             ep = case['entry']
             fresh = lambda: build.coalescent(spec)
             if ep == 'cdf':
-                r['vec'] = [float(x) for x in fresh().tree_height.cdf(cont)]
+                obj = fresh()
+                r['vec'] = [float(x) for x in obj.tree_height.cdf(cont)]
+                r['vec2'] = [float(x) for x in obj.tree_height.cdf(as_container(ts[1:] + ts[:1], case['container']))]
                 r['pt'] = [float(fresh().tree_height.cdf(t)) for t in ts]
             elif ep == 'pdf':
                 c = fresh()
@@ -43,11 +45,16 @@ def main():
             elif ep in ('acc1', 'acc2', 'tbl1'):
                 k = 2 if ep == 'acc2' else 1
                 dist = (lambda c: c.total_branch_length) if ep == 'tbl1' else (lambda c: c.tree_height)
-                r['vec'] = [float(x) for x in dist(fresh()).accumulate(k, cont)]
+                obj = dist(fresh())
+                r['vec'] = [float(x) for x in obj.accumulate(k, cont)]
                 r['pt'] = [float(dist(fresh()).accumulate(k, [t])[0]) for t in ts]
+                # the SAME times in another order asked of the SAME object afterwards (rotated by one position)
+                r['vec2'] = [float(x) for x in obj.accumulate(k, as_container(ts[1:] + ts[:1], case['container']))]
             elif ep == 'sfs1':
-                v = fresh().sfs.accumulate(1, cont)
+                obj = fresh()
+                v = obj.sfs.accumulate(1, cont)
                 r['vec'] = [[float(x) for x in row] for row in np.array(v).T]
+                r['vec2'] = [[float(x) for x in row] for row in np.array(obj.sfs.accumulate(1, as_container(ts[1:] + ts[:1], case['container']))).T]
                 r['pt'] = [[float(x) for x in np.array(fresh().sfs.accumulate(1, [t]))[:, 0]] for t in ts]
             elif ep == 'epochs':
                 d = fresh().demography
